@@ -52,6 +52,9 @@ NETS4 = ["10.0.0.0/8", "192.168.0.0/16", "10.1.2.0/24", "10.1.2.3/32", "0.0.0.0/
          "10.4.0.0/14", "128.0.0.0/1", "10.1.2.252/30"]
 
 
+NETS6 = ["2001:db8::/64", "a::/48", "::/32", "2001:db8:1:4::/62", "fe80::/10", "::1/128", "2001:db8::/61"]
+
+
 @st.composite
 def items(draw, cfg, fields):
     """One (key, value) detection item admissible for cfg."""
@@ -85,10 +88,10 @@ def items(draw, cfg, fields):
     elif kind == "cidr":
         if cfg["cidr"] and draw(st.integers(0, 7)):  # native template gets the raw field name (known finding)
             field = draw(st.sampled_from(BARE_FIELDS))
-        value = draw(st.sampled_from(NETS4))
+        value = draw(st.sampled_from(NETS4 + NETS6))
         chain = ["cidr"]
         if draw(st.integers(0, 3)) == 0:
-            value = [value, draw(st.sampled_from(NETS4))]
+            value = [value, draw(st.sampled_from(NETS4 + NETS6))]
     elif kind == "bool":
         value = draw(st.booleans())
     elif kind == "null":
